@@ -52,6 +52,7 @@ type UOpts struct {
 	NArtifact int
 	BareMT    bool // some OCI manifests and indexes omit the optional mediaType field of the body
 	MTSkew    bool // some index entries list a child under another (docker <-> OCI) media type than it was pushed with, or with another size
+	MTWild    bool // some index entries list a child manifest under a media type that is no manifest type at all
 	OddAT     bool // artifact types that contain + & = % #
 	Tags      []string
 	Tag       string // unique content marker
@@ -240,6 +241,17 @@ func GenUniverse(r *rand.Rand, o UOpts) *Universe {
 			ch = nil // the empty index
 		}
 		mo := MkOpt{Bare: o.BareMT && mt == MTIndex && r.Intn(4) == 0}
+		if o.MTWild {
+			// a tool that writes an index may get a child's media type wrong altogether (a manifest listed as a layer)
+			for _, c := range ch {
+				if r.Intn(3) == 0 {
+					if mo.ListAs == nil {
+						mo.ListAs = map[string]string{}
+					}
+					mo.ListAs[c.D] = MTLayer
+				}
+			}
+		}
 		if o.MTSkew {
 			// a tool that rewrites an index may list its children under the sibling media type
 			swap := map[string]string{MTImage: MTDockerImage, MTDockerImage: MTImage, MTIndex: MTDockerList, MTDockerList: MTIndex}
